@@ -118,6 +118,7 @@ def check_gen(case):
     half = case['span'] * case['margin']
     a, b = P['xd0'] - half, P['xd0'] + half
     o.label(case['pattern'], 'ul!=ur' if P['ul'] != P['ur'] else 'ul==ur', 'gl!=gr' if P['gl'] != P['gr'] else 'gl==gr')
+    cat.quiet(s, np.array([P['xd0']]), 0.4 * case['t'])     # the object has been evaluated at an earlier time before (usual use: a sequence of times)
     plain_conservation(o, s, case, a, b, 3e-4, case['pattern'])
     o.nontrivial = P['ul'] != P['ur'] or P['gl'] != P['gr']
     return o
